@@ -1173,9 +1173,11 @@ func c01RunShard(t *testing.T, sh c01Shard) *c01Result {
 	c01Must("join", JL.s.Join(joinRequest(JN.id, JN.s.Addr(), false)))
 	// the Store's own index is set when fsmApply has returned (raft's AppliedIndex is
 	// set when an entry is handed to the FSM goroutine, which is too early to read)
-	for i := 0; JN.s.fsmIdx.Load() < lastCmd; i++ {
-		if i > 2400 {
-			panic(fmt.Sprintf("c01 harness: joiner stuck at index %d of %d", JN.s.fsmIdx.Load(), lastCmd))
+	for at, since := uint64(0), time.Now(); JN.s.fsmIdx.Load() < lastCmd; {
+		if now := JN.s.fsmIdx.Load(); now != at {
+			at, since = now, time.Now()
+		} else if time.Since(since) > 2*time.Minute {
+			panic(fmt.Sprintf("c01 harness: joiner stuck at index %d of %d", at, lastCmd))
 		}
 		time.Sleep(25 * time.Millisecond)
 	}
